@@ -554,9 +554,13 @@ class _IRnodeLowerer:
         # Seq (used to piece together multiple statements)
         if code.value == "seq":
             o = []
-            for arg in code.args:
+            for i, arg in enumerate(code.args):
                 o.extend(self._compile_r(arg, height))
-                if arg.valency == 1 and arg != code.args[-1]:
+                # pop the value of every element but the last one.
+                # NOTE: compare positions; `arg != code.args[-1]` is structural
+                # equality, and would leave the value of an element which
+                # happens to be equal to the last element on the stack.
+                if arg.valency == 1 and i != len(code.args) - 1:
                     o.append("POP")
             return o
 
